@@ -38,6 +38,24 @@ fn main() {
         }
         let b = boundaries(&mp);
         rep.eval();
+        // "The constructor either panics or yields 0 <= t1 <= t2 <= t3": t1..t3 are private, but the derived Debug text is a
+        // public observation of them. Where it can be read (a change of the Debug format just leaves this unasserted) the
+        // stored values must be ordered and be the boundaries that get_piece shows.
+        {
+            let dbg = format!("{:?}", mp);
+            let grab = |name: &str| -> Option<i64> { let i = dbg.find(&format!("{}: Time(", name))? + name.len() + 7; let rest = &dbg[i..]; rest[..rest.find(')')?].trim().parse().ok() };
+            if let (Some(t1), Some(t2), Some(t3)) = (grab("t1"), grab("t2"), grab("t3")) {
+                rep.tally("stored_boundaries_read_from_debug");
+                if !(0 <= t1 && t1 <= t2 && t2 <= t3) {
+                    rep.violation("C06/stored-boundaries-order", "profiles", case, format!("accepted profile stores t1={} t2={} t3={} (must be 0 <= t1 <= t2 <= t3); case={:?}", t1, t2, t3, c));
+                    continue;
+                }
+                if [t1, t2, t3] != b {
+                    rep.violation("C06/stored-boundaries-vs-pieces", "profiles", case, format!("stored t1..t3 = {:?} but get_piece changes at {:?}; case={:?}", [t1, t2, t3], b, c));
+                    continue;
+                }
+            }
+        }
         if !(0 <= b[0] && b[0] <= b[1] && b[1] <= b[2]) {
             rep.violation("C06/boundaries-order", "profiles", case, format!("recovered t1..t3 = {:?}; case={:?}", b, c));
             continue;
